@@ -6,9 +6,9 @@ BASELINE = json.load(open('/root/.vp/BASELINE.json'))['cmd']
 
 # id -> (technique, level text, level note)
 CLAIMED = {
- "C01": ("deterministic simulation: seeded cluster of real replicas with different roles/configs fed identical PRNG-built block histories under CheckTx noise and crash/restart; transcript equality oracle",
+ "C01": ("deterministic simulation: seeded cluster of real replicas with different roles/configs, per-replica wall-clock skew and per-replica dictated map iteration orders (build-overlay seams) fed identical PRNG-built block histories under CheckTx noise and crash/restart; transcript equality oracle",
          "Seeded search over block histories, node configurations and fault schedules on 3-6 real replicas per run; every commit hash, validator update and DeliverTx result is compared with the reference replica. A clean batch is evidence, not proof.",
-         "Trusts the consensus driver to deliver identical blocks (it builds each block once), Tendermint's BlockExecutor/Handshaker as shipped, and tmpfs goleveldb. Go's own map-order randomisation is an uncontrolled source: violations caused by it are replayed repeatedly and reported with their reproduction rate."),
+         "Trusts the consensus driver to deliver identical blocks (it builds each block once), Tendermint's BlockExecutor/Handshaker as shipped, and tmpfs goleveldb. Map iteration order inside the repository's packages is dictated per replica through the map-order seam (ascending / descending / rotated / permuted / native, a function of replica, site and size, so runs replay exactly); map loops inside dependencies (Tendermint, IAVL, go-ethereum) keep Go's own randomisation, violations caused by that are replayed repeatedly and reported with their reproduction rate."),
  "C06": ("deterministic simulation: raw-mode shadow twin receives the captured BeginBlock and only the successful transactions of each block; per-block hash/result/validator-update equality",
          "Seeded search over block histories biased to failures at every depth (handler failure after partial writes, fee-step failure after handler success, VM pre-check failures) at random positions among successful transactions touching the same keys; the twin without the failed transactions must agree on every app hash, surviving result (code, data, gas, events), block event and validator update.",
          "Block gas limit none/40M/8M per run; the running gas total is exempt: contracts never read GASLIMIT and the rest of a run is not judged once a block's consumed total reached the limit; identical-bytes resubmission and BLOCKHASH excluded (the twin's tx index legitimately differs). Twin is driven over raw ABCI, main replica through the real BlockExecutor."),
@@ -94,9 +94,9 @@ m = {
  "setup_cmd": "./check setup",
  "hooks": {
    "guard": "verif",
-   "enable": "go build -tags 'verif verifgen' -overlay build/overlay.json -ldflags=-checklinkname=0 (done by ./check; overlay = Prepare() half generated from live source + time.Now -> utils/verifclock.Now in every non-test file: per-node skewed wall clock)",
+   "enable": "go build -tags 'verif verifgen' -overlay build/overlay.json -ldflags=-checklinkname=0 (done by ./check; overlay = Prepare() half generated from live source + time.Now -> utils/verifclock.Now in every non-test file: per-node skewed wall clock + every range over a map in the packages package app is built from -> loop over keys arranged by utils/verifmap.Arrange: per-node dictated map iteration order, native order when no policy is installed)",
    "baseline_off_cmd": BASELINE,
-   "source_commits": ["0a453f7", "f5939a8", "59b8f5a"],
+   "source_commits": ["0a453f7", "f5939a8", "59b8f5a", "4f33f17"],
    "add_only": True,
  },
  "engines": [
